@@ -176,6 +176,9 @@ def extract(repo):
     if not mloop:
         raise ValueError("checkAnInvAttr: candidate loop not recognised")
     per_attr = mloop.group(1) != "_referentInstances"
+    if not re.search(r"subtypesIterator\s+subtypeIter\(\s*ed\s*\)", cai) or not re.search(r"edL\.insert\(\s*\*subtypeIter\s*\)", cai) \
+            or not re.search(r"edL\.insert\(\s*ed\s*\)", cai):
+        raise ValueError("checkAnInvAttr: edL = inverted entity + subtypesIterator walk not recognised")
     liff = _body(rh, r"void\s+loadInstIFFreferent\s*\([^)]*\)\s*\{")
     if "inverted_attr_()->IsAggrType()" in liff:
         aggr_by_inverse = False
@@ -219,6 +222,15 @@ def extract(repo):
             raise ValueError("InitIAttrs: shape not recognised")
         # inlined search: a `return` inside the loop leaves the siblings declared later unlinked
         per_inverse = not re.search(r"\breturn\b", loop)
+
+    # --- lazyFileReader: needKW consumes what it compares; initP21 tests END-ISO... first, DATA second
+    lfr = _strip_comments(rd("src/cllazyfile/lazyFileReader.cc"))
+    nk = _body(lfr, r"bool\s+lazyFileReader::needKW\s*\([^)]*\)\s*\{")
+    if not re.search(r"\*c\s*!=\s*_file\.get\(\)", nk):
+        raise ValueError("needKW: consuming comparison not recognised")
+    ip = _body(lfr, r"void\s+lazyFileReader::initP21\s*\(\s*\)\s*\{")
+    if not re.search(r'needKW\(\s*"END-ISO-10303-21;"\s*\).*needKW\(\s*"DATA"\s*\)', ip, re.S):
+        raise ValueError("initP21: END-ISO / DATA tests not recognised")
 
     out = ["-- GENERATED by tools/extract.d/lazy.py from src/cllazyfile/*.cc, lazyRefs.h, include/cllazyfile/*.h",
            "namespace StepModel.Generated", "",
